@@ -40,7 +40,15 @@ def timer_table(ctx, exe, d):
         L += ["w0 evnew 1 2 0 0 0", "w0 evadd 1 0 2 %d %d %d" % (fl, ff, dig2int(x["d"])), "w0 evdel 1 0 2 0 0 0"]
         if k % 250 == 249 or k == len(cases) - 1: L += ["m spawn w0", "m join w0"]
     L += ["m quiesce", "m shutdown", "m sleep 20000", "m shutdown_wait", "m destroy", "m reset"]
-    rc, out, evs = tp.run_scenario(exe, "\n".join(L) + "\n", d, ctx.seed, "c06_timer", timeout=300)
+    rc, out, evs = tp.run_scenario(exe, "\n".join(L) + "\n", d, ctx.seed, "c06_timer", timeout=120 if ctx.quick else 300)
+    bad = [e for e in evs if e["e"] in ("Hang", "Crash")]
+    if bad:      # the pool hung or died while programming timers: a verdict about the code under test
+        ctx.fail("timer:run:tp_drv:%s:%s" % (bad[0]["e"], bad[0].get("where", bad[0].get("sig", ""))), out[-1500:] + "\n" + json.dumps(evs[-20:], indent=0), {"seed": ctx.seed})
+        return
+    if rc == 124:
+        rc, out, evs = tp.run_scenario(exe, "\n".join(L) + "\n", d, ctx.seed, "c06_timer", timeout=120 if ctx.quick else 300)
+        if rc == 124:
+            ctx.fail("timer:run:tp_drv:timeout", out[-1500:], {"seed": ctx.seed}); return
     if rc != 0: raise common.Infra("tp_drv (timer table) rc=%s\n%s" % (rc, out[-1500:]))
     # pair every evadd with the settime it caused
     i = 0; k = -1; nontriv = 0
@@ -177,10 +185,28 @@ def run(ctx):
     timer_table(ctx, exe, d)
     nsc = 12 if ctx.quick else 200
     ntr = 0; total_ev = 0; samples = []
+    run_failures = 0
     for sid in range(1, nsc + 1):
+        if run_failures >= 2:
+            ctx.log("pool hung/died in %d scenario runs (reported): the remaining scenarios are not run" % run_failures); break
         text = ev_scenarios(rng, sid)
-        rc, out, evs = tp.run_scenario(exe, text, d, ctx.seed + sid, "c06_%d" % sid, timeout=200)
+        rc, out, evs = tp.run_scenario(exe, text, d, ctx.seed + sid, "c06_%d" % sid, timeout=60)
         bad = [e for e in evs if e["e"] in ("Hang", "BadOp", "Crash")]
+        if rc != 0 or bad:
+            ctx.log("driver run failed (rc=%s %s): one retry" % (rc, bad[:1]))
+            rc, out, evs = tp.run_scenario(exe, text, d, ctx.seed + sid, "c06_%d" % sid, timeout=60)
+            bad = [e for e in evs if e["e"] in ("Hang", "BadOp", "Crash")]
+        if bad and bad[0]["e"] in ("Hang", "Crash"):
+            ctx.fail("run:tp_drv:%s:%s" % (bad[0]["e"], bad[0].get("where", bad[0].get("sig", ""))), out[-1500:] + "\n" + json.dumps(evs[-25:], indent=0),
+                     {"scenario": text, "seed": ctx.seed + sid})
+            run_failures += 1
+            continue
+        if rc == 124 and not bad:
+            # twice in a row the scenario (seconds on a healthy pool) did not finish within the rig's 60 s: threads of the
+            # pool are stuck while the main thread keeps running its bounded waits - the code under test, not the rig
+            ctx.fail("run:tp_drv:timeout", out[-1500:], {"scenario": text, "seed": ctx.seed + sid})
+            run_failures += 1
+            continue
         if rc != 0 or bad: raise common.Infra("tp_drv rc=%s %s\n%s" % (rc, bad[:2], out[-1500:]))
         ok, info, r = tp.validate(ctx, prep(evs), d, "c06_%d" % sid, KEEP)
         ntr += 1; total_ev += info["events"]
